@@ -15,6 +15,14 @@ CLAIMS = {
         technique="TLA+ reference semantics (BVRef) cross-checked by TLC; TLC-generated cases replayed on the real BitVector by 6 construction routes; regime-directed real traces validated by TLC against the spec",
         text="Bounded model checking of the Layer A bitvector semantics (two independent definitions agree on every bit sequence up to N bits) plus two-way conformance of the real plain bitvector: every answer (get/rank/rank_zero/select/select_zero/select_iter/predecessor/successor, len/count) for every argument incl. huge ones on all contents <= 10 bits (11 thorough) and a word/block/superblock boundary family, by every public construction route; and traces of 2^17..2^21-bit vectors built to hit long and short select superblocks, partial last blocks and dense/sparse/clustered layouts, validated event by event by TLC. The run fails as vacuous if no validated select query landed inside a long superblock for ones and for zeros.",
         design_ref="DESIGN.md section 6, C01"),
+    "C02": dict(
+        technique="TLA+ reference semantics; TLC-generated cases replayed on the real SparseVector by 5 routes; real traces over a sweep of Elias-Fano low-part widths validated by TLC",
+        text="Bounded model checking of the Layer A semantics plus two-way conformance of the real Elias-Fano vector: every answer for every argument (incl. huge) on all (n, positions) with n <= 10 (11 thorough) and the boundary family, built by builder/try_set/extend/conversions; and recorded traces for universes up to 2^31 chosen so that the parameter rule picks each low-part width 1..22 (observed widths are read back from the serialized object and the run is vacuous below a minimum count), with positions on bucket boundaries and at both ends of the universe, select_zero stress layouts with more than 16 runs, empty and full vectors; every event validated by TLC. Universes of 2^31 and above are covered by the U64 trace specification when listed in the evidence stages.",
+        design_ref="DESIGN.md section 6, C02"),
+    "C03": dict(
+        technique="TLA+ reference semantics incl. maximal-run iterator; TLC-generated run lists from code-unit value classes replayed on the real RLVector by 6 builder decompositions; multi-block real traces validated by TLC",
+        text="Bounded model checking of the Layer A semantics plus two-way conformance of the real run-length vector: all contents <= 10 bits, the boundary family (up to 65 blocks), and run lists whose gaps/lengths are drawn from the code-unit boundary classes {1,2,7,8,9,63,64,65,511,512} (<= 2-3 runs, with/without a run at 0 and trailing zeros), each built by per-run calls, bit at a time, split runs that must merge, set_len before every run, and conversions; every query for every argument and the run iterator with offset/rank/rank_zero after each item; recorded traces with 1..500 blocks (the sample index changes shape at 8), values needing up to 10 code units, early-closed blocks, lengths up to 2^31, validated by TLC.",
+        design_ref="DESIGN.md section 6, C03"),
 }
 
 NOT_YET = {}
